@@ -11,7 +11,7 @@ Verdict discipline (DESIGN.md section 5):
           listed known finding
   exit 2  infrastructure problem (never a VIOLATION line)
 """
-import hashlib, json, os, re, shutil, subprocess, sys, time
+import hashlib, json, os, re, shutil, subprocess, sys, threading, time
 
 VERIF = os.path.dirname(os.path.dirname(os.path.abspath(__file__)))
 SPEC = os.path.join(VERIF, 'spec')
@@ -99,9 +99,13 @@ def build_race_harness(ctx):
     return out
 
 
+_TLC_LOCK = threading.Lock()
+
+
 def tlc(ctx, module, cfg, args=(), env=None, timeout=900, workers=None):
-    ctx.n_tlc += 1
-    meta = os.path.join(ctx.work, 'meta%d' % ctx.n_tlc)
+    with _TLC_LOCK:
+        ctx.n_tlc += 1
+        meta = os.path.join(ctx.work, 'meta%d' % ctx.n_tlc)
     if workers is None:
         workers = '8'
     cmd = ['tlc', '-workers', str(workers), '-metadir', meta, '-config', cfg] + list(args) + [module]
@@ -109,7 +113,8 @@ def tlc(ctx, module, cfg, args=(), env=None, timeout=900, workers=None):
     e['JAVA_TOOL_OPTIONS'] = '-Xss512m'
     if env:
         e.update(env)
-    ctx.tlc_cmds.append(' '.join(cmd[:1] + [a for a in cmd[1:] if not a.startswith(ctx.work)]))
+    with _TLC_LOCK:
+        ctx.tlc_cmds.append(' '.join(cmd[:1] + [a for a in cmd[1:] if not a.startswith(ctx.work)]))
     try:
         p = subprocess.run(cmd, cwd=ctx.specdir, env=e, stdout=subprocess.PIPE, stderr=subprocess.STDOUT,
                            text=True, timeout=timeout)
@@ -330,7 +335,58 @@ _LINES = re.compile(r'^<<"VERIF_LINES", (-?\d+), (\d+)>>$')
 
 def validate(ctx, trace_module, trace_path, cfg=None, timeout=1800, extra_env=None):
     """Run the TLA+ trace specification over a recorded trace file. Returns
-    the list of rejected traces [{tid, line, why}]."""
+    the list of rejected traces [{tid, line, why}].  Large files are cut at
+    trace boundaries ("begin" events) into shards validated by parallel TLC
+    processes (every monitor judges a trace on its own); line numbers are
+    mapped back to the whole file."""
+    nlines = sum(1 for _ in open(trace_path))
+    if nlines == 0:
+        return []
+    size = os.path.getsize(trace_path)
+    nshards = 1
+    if nlines >= 600 or size >= 1 << 20:
+        nshards = min(8, max(2, nlines // 300, size // (512 << 10)))
+    if nshards == 1:
+        return _validate_one(ctx, trace_module, trace_path, cfg, timeout, extra_env)
+    # cut at "begin" lines, balancing bytes
+    target = size / nshards
+    shards = []            # (path, first line - 1)
+    with _TLC_LOCK:
+        ctx.n_tlc += 1
+        base = os.path.join(ctx.work, 'shard%d' % ctx.n_tlc)
+    out, cur, start = None, 0, 0
+    with open(trace_path) as f:
+        for i, ln in enumerate(f):
+            if out is None or (cur >= target and len(ln) < 4000 and '"op":"begin"' in ln and len(shards) < nshards):
+                if out:
+                    out.close()
+                path = '%s-%d.ndjson' % (base, len(shards))
+                shards.append((path, i))
+                out = open(path, 'w')
+                cur = 0
+            out.write(ln)
+            cur += len(ln)
+    if out:
+        out.close()
+    import concurrent.futures
+    bad = []
+    with concurrent.futures.ThreadPoolExecutor(max_workers=len(shards)) as ex:
+        futs = [(off, ex.submit(_validate_one, ctx, trace_module, path, cfg, timeout, extra_env)) for path, off in shards]
+        for off, fu in futs:
+            for b in fu.result():
+                b = dict(b)
+                b['line'] = b['line'] + off
+                bad.append(b)
+    for path, _ in shards:
+        try:
+            os.remove(path)
+        except OSError:
+            pass
+    bad.sort(key=lambda b: b['line'])
+    return bad
+
+
+def _validate_one(ctx, trace_module, trace_path, cfg=None, timeout=1800, extra_env=None):
     if cfg is None:
         cfg = trace_module + '.cfg'
     nlines = sum(1 for _ in open(trace_path))
